@@ -3,7 +3,7 @@
    The claim is PARTIAL: the heap model (Heap.v) abstracts CPython object semantics. *)
 From Coq Require Import ZArith List Bool.
 Import ListNotations.
-Require Import PyBase Heap HeapFacts HeapFrame HeapCopy HeapSim HeapHistory HeapOps HeapExamples.
+Require Import PyBase Heap HeapFacts HeapFrame HeapCopy HeapSim HeapHistory HeapOps HeapLinkerSim HeapProtect HeapLinkerCopySim HeapExamples.
 Open Scope Z_scope.
 
 (* copy.deepcopy creates only new objects: the old heap is a prefix of the new one, the result refers to new objects only *)
@@ -38,6 +38,45 @@ Theorem C11_copy_observationally_equal K h r h' r' o :
   (forall k, In k (copy_fresh_keys K h r) -> In k (map fst (ocells o))) ->
   (exists o', nth_error h' r' = Some o' /\ okind o' = okind o) /\ forall n, sim n h' (VR r) (VR r').
 Proof. exact (copy_sim K h r h' r' o). Qed.
+
+(* BaseLinker.copy returns a linker of the same class that is observationally equal to the original at every depth (its own
+   entries AND, through the new submodels dict, every submodel).  Hypotheses: no duplicate keys in the original's __dict__;
+   `submodels` is a dict; every submodel satisfies the hypotheses of C11_copy_observationally_equal in the heap in which it is
+   copied; every key a FRESH linker of the class gets is a key of the original *)
+Theorem C11_linker_copy_observationally_equal K h r h' r' o d od :
+  linker_copy_M K h r = Some (h', r') -> wf h -> nth_error h r = Some o ->
+  cell_get (A N_submodels) (ocells o) = Some (VR d) -> nth_error h d = Some od -> okind od = KDict ->
+  NoDup (map fst (ocells o)) ->
+  submodels_copyable_seq K h (ocells od) ->
+  (forall k, In k (linker_fresh_keys K h r) -> In k (map fst (ocells o))) ->
+  (exists o', nth_error h' r' = Some o' /\ okind o' = okind o) /\ forall n, sim n h' (VR r) (VR r').
+Proof. exact (linker_copy_sim K h r h' r' o d od). Qed.
+
+(* ... hypotheses satisfiable: a concrete linker with two submodels *)
+Theorem C11_linker_copy_observationally_equal_example :
+  exists o od h' r',
+    nth_error (sh s_lk) lk_root = Some o /\ cell_get KP (ocells o) = Some (VR lk_dict) /\
+    nth_error (sh s_lk) lk_dict = Some od /\ okind od = KDict /\ wf (sh s_lk) /\
+    NoDup (map fst (ocells o)) /\ submodels_copyable_seq K0 (sh s_lk) (ocells od) /\
+    (forall k, In k (linker_fresh_keys K0 (sh s_lk) lk_root) -> In k (map fst (ocells o))) /\
+    linker_copy_M K0 (sh s_lk) lk_root = Some (h', r').
+Proof. exact ex_linker_copy_sim_hypotheses. Qed.
+
+(* component: the dict comprehension {k: copy.deepcopy(v)} over the submodels yields, key by key, observationally equal submodels *)
+Theorem C11_linker_copy_submodels_observationally_equal K cs h h' cs' :
+  copy_submodels K h cs = Some (h', cs') -> wf h ->
+  (forall k l, In (k, VR l) cs -> (l < length h)%nat) ->
+  submodels_copyable_seq K h cs ->
+  Forall2 (fun c c' => fst c = fst c' /\ forall n, sim n h' (snd c) (snd c')) cs cs'.
+Proof. exact (copy_submodels_sim K cs h h' cs'). Qed.
+
+(* path footprint used for BaseLinker.__init__: a receiver R that already refers to OLDER objects through one cell kp, running
+   actions whose paths never start with kp and whose sources are fresh / scalar / deep copies: every object older than R is left
+   as it is and the cell kp keeps its value *)
+Theorem C11_path_footprint kp R acts h h' ok :
+  pinv kp R h -> forallb (act_safe kp) acts = true -> run_actions h R acts = (h', ok) ->
+  pinv kp R h' /\ cell_kp kp R h' = cell_kp kp R h /\ (forall x, (x < R)%nat -> nth_error h' x = nth_error h x).
+Proof. exact (actions_safe kp R acts h h' ok). Qed.
 
 (* footprint_within_reach — any operation (list of non-leaky actions) of a receiver r writes only inside reach h r or into new
    objects, and afterwards reaches only what it reached before or new objects *)
@@ -154,8 +193,9 @@ Proof. exact (conj ex_ops_history_ok ex_copy_then_ops_share_nothing). Qed.
 Theorem C11_hypotheses_satisfiable : roots_ok (s0 0 None).
 Proof. exact ex_roots_ok. Qed.
 
-(* ---------------- what the current code still shares (kept findings): witnesses *)
-(* TracerMixin stores the class-level TRACE_VARIABLES list itself in a Trace: operations on the instance change the class *)
+(* ---------------- what the current code still shares, and why the hypotheses are needed: witnesses *)
+(* KEPT FINDING (known_findings.d/C11.json): TracerMixin stores the class-level TRACE_VARIABLES list itself in a Trace:
+   operations on the instance (m.trace[1].names.append) change the class, hence every sibling *)
 Theorem C11_tracer_class_list_leak_refuted :
   exists (s : state) (ops : list op) (j : nat) (rj : loc),
     roots_ok s /\ nth_error (sroots s) j = Some rj /\ j <> 1%nat /\
@@ -171,7 +211,9 @@ Theorem C11_shared_span_argument_refuted :
     nth 2 (root_views (run_hevents K0 s1 [HOps 1 ops]) 3) CCut <> nth 2 (root_views s1 3) CCut.
 Proof. exact shared_span_argument_refuted. Qed.
 
-(* copy() deep-copies entry by entry: aliasing BETWEEN entries (Trace.names is model.names) is lost, the two sides then diverge *)
+(* a STRONGER reading of "observationally equal" (equal under every later operation as well) is refuted: copy() deep-copies entry
+   by entry, so aliasing BETWEEN entries (Trace.names is model.names after a traced solve: C17's finding) is lost; original and
+   copy are equal at copy time (first conjunct, what C11 states) and diverge under the same later add_variable *)
 Theorem C11_copy_unshares_internal_alias_refuted :
   let s1 := run_events K0 s_al [ECopy 1] in
   nth 2 (root_views s1 6) CCut = nth 1 (root_views s1 6) CCut /\
@@ -179,7 +221,7 @@ Theorem C11_copy_unshares_internal_alias_refuted :
   nth 2 (root_views s2 6) CCut <> nth 1 (root_views s2 6) CCut.
 Proof. exact copy_unshares_internal_alias_refuted. Qed.
 
-(* #21: reindex shares object-dtype cells (the Trace objects) with the original *)
+(* #21 (C12's finding, outside C11's claim): reindex shares object-dtype cells (the Trace objects) with the original *)
 Theorem C11_reindex_shares_object_cells_refuted :
   let s1 := run_events K0 s_al [EReindex 1 (new_list [2002; 2004; 2006; 2008]) 4 [(0, 1); (1, 2)]
                                          [(N_status, 101); (N_iterations, -2); (201, 0); (203, 0); (205, 0); (N_trace, 121)]] in
@@ -206,3 +248,7 @@ Print Assumptions C11_operation_history_independent.
 Print Assumptions C11_copy_then_any_operations.
 Print Assumptions C11_linker_copy_then_any_operations.
 Print Assumptions C11_operation_history_example.
+Print Assumptions C11_linker_copy_observationally_equal.
+Print Assumptions C11_linker_copy_observationally_equal_example.
+Print Assumptions C11_linker_copy_submodels_observationally_equal.
+Print Assumptions C11_path_footprint.
